@@ -32,6 +32,8 @@ def gen(ctx):
 def base(n, plan, pools, **kw):
     sc = {'n': n, 'plan': list(plan), 'target': None, 'pools': list(pools), 'idem': False, 'spec': [False, 0], 'cl': 1,
           'pv': 4, 'ks': None, 'ps': None, 'known': [], 'script': [[3, None]] * 12, 'ops': []}
+    sc['nids'] = [1, 4, 2][(sum(pools) + len(plan)) % 3]
+    sc['metrics'] = bool(sum(pools) % 2)
     sc.update(kw)
     return sc
 
@@ -96,6 +98,18 @@ def spec_races(ctx):
     return items
 
 
+def reprepares(ctx):
+    """UNPREPARED on the first host, for every size of the stream-id deque (with 1 the PREPARE goes out on stream id 0)"""
+    items = []
+    for nids in (1, 2, 3, 4):
+        for pr in ([2, 7], [2, 8], [3, 7, 21], [3, 3, 21]):
+            for pools in ([6, 6, 6], [6, 2, 6]):
+                sc = base(3, [0, 1, 2], pools, ps=[7, 3, None], nids=nids, script=[[3, None]] * 6)
+                obs, bad, run = K.drive_sequential(sc, PID, lambda i, prep, tag: (pr if prep else ([4, 7, tag] if i == 0 else [3, 3, tag])), max_ops=14)
+                items.append((sc, obs, bad, {'nontrivial': True}))
+    return items
+
+
 def randoms(ctx, count):
     items = []
     for i in range(count):
@@ -124,6 +138,9 @@ def run(ctx):
     tg = targeted(ctx)
     items += tg
     ctx.count('source', 'explicit_target', len(tg))
+    rp = reprepares(ctx)
+    items += rp
+    ctx.count('source', 'reprepare_stream_ids', len(rp))
     sr = spec_races(ctx)
     items += sr
     ctx.count('source', 'speculative_timer_inside_first_query', len(sr))
